@@ -1431,6 +1431,13 @@ func (w *World) opReload(op *Op) {
 		return
 	}
 	root := v.root
+	if w.cfg.Format == FmtMarshaler && op.T%2 == 1 {
+		// legacy root records carry no NodeFormat
+		lr := *v.root
+		lr.NodeFormat = ""
+		root = &lr
+		w.st.Probes["reload-legacy-root-record"]++
+	}
 	if op.F == "json" {
 		b, err := json.Marshal(root)
 		if err != nil {
@@ -1462,6 +1469,7 @@ func (w *World) opReload(op *Op) {
 		return
 	}
 	if m.Size() != v.root.Size || m.Height() != v.root.Height || m.BranchFactor() != v.root.BranchFactor {
+		_ = root
 		w.failFor("C05", "reload-params-differ", "reloaded size/height/bf = %d/%d/%d, root says %d/%d/%d", m.Size(), m.Height(), m.BranchFactor(), v.root.Size, v.root.Height, v.root.BranchFactor)
 		return
 	}
